@@ -266,6 +266,138 @@ def run_baseq(BaseRegularizer, form, kwargs, sM, sE, model, name, c, default_nam
     return {"k": "baseq", "form": form, "sM": sM, "sE": str(sE), "c": c, "vq": vq, "big": big}
 
 
+# ------------------------------------------------------------------------------------- attribute life cycle
+ATTR_COST = {"A": [7, 20], "B": [12, 5]}
+ATTR_T = {1: [10, 20], 2: [6, 30]}
+ATTR_F = {1: [10000, 20000], 2: [20000, 10000]}
+NAMES = ["m0", "m1"]
+
+
+def _su(torch, x):
+    """public strength attribute -> integer units of u (None if not an integer number of units)"""
+    fr = Fraction(float(x)) / U
+    return int(fr) if fr.denominator == 1 and abs(fr) < 2 ** 30 else None
+
+
+def run_attr(torch, DUCCIO, BaseRegularizer, variant, hist, model=None, poke=None):
+    """Replay a RegLife behaviour on the real class. hist: [{op, k, v}]; every 'apply' is logged, and a final
+    application (DUCCIO: with both schedules) is appended.  model/poke: a real model and a function changing its cost
+    (then 'cost' actions call poke and the costs are read from the model)."""
+    base = variant != "duccio"
+    cost = list(ATTR_COST["A"])
+    ctor_tensor = None
+    if variant == "float":
+        reg = BaseRegularizer("m0", float(3 * U))
+    elif variant == "tensor":
+        ctor_tensor = _f(torch, 5 * U)
+        reg = BaseRegularizer("m0", ctor_tensor)
+    else:
+        reg = DUCCIO({n: torch.tensor(float(t)) for n, t in zip(NAMES, ATTR_T[1])},
+                     final_strengths=tuple(_f(torch, f * U) for f in ATTR_F[1]))
+    ev = []
+
+    def mk_model():
+        if model is not None:
+            return model
+        return Stub(torch, dict(zip(NAMES, cost)), grad=True)
+
+    def cur_cost(mdl):
+        if model is None:
+            return list(cost)
+        out = []
+        for n in NAMES:
+            c = float(mdl.get_cost(n))
+            if c != int(c) or c >= 2 ** 20:
+                raise tlc.MachineryError("attribute life cycle on a real model needs integer costs")
+            out.append(int(c))
+        return out
+
+    def apply(i, sch):
+        mdl = mk_model()
+        e, n = (1, 4) if sch == "e1n4" else (1, 1)
+        if base:
+            val = reg(mdl)
+            pub_s = _su(torch, reg.strength)
+            pub = {"name": str(reg.cost_name), "s": pub_s if pub_s is not None else -1,
+                   "isT": bool(torch.is_tensor(reg.strength))}
+            st = reg.strength.detach().clone() if torch.is_tensor(reg.strength) else reg.strength
+            fresh = BaseRegularizer(reg.cost_name, st)
+            fval = fresh(mk_model())
+        else:
+            val = reg(mdl) if sch == "dflt" else reg(mdl, e, n)
+            tt = [float(reg.targets[nm]) for nm in NAMES]
+            ff = [_su(torch, x) for x in reg.final_strengths]
+            pub = {"t": [int(x) if x == int(x) else -1 for x in tt], "f": [x if x is not None else -1 for x in ff]}
+            fresh = DUCCIO({nm: torch.as_tensor(reg.targets[nm]).detach().clone() for nm in NAMES},
+                           final_strengths=tuple(torch.as_tensor(x).detach().clone() for x in reg.final_strengths))
+            fval = fresh(mk_model(), e, n)
+        cls, v, frac = _val_rec(val)
+        fcls, fv, _ = _val_rec(fval)
+        g, gerr = [0, 0], False
+        if cls == "fin" and model is None:
+            try:
+                if val.requires_grad:
+                    val.backward()
+                for k, nm in enumerate(NAMES):
+                    gr = mdl.c[nm].grad
+                    gx = 0.0 if gr is None else float(gr)
+                    if _cls(gx) in ("nan", "inf"):
+                        gerr = True
+                    else:
+                        gu, gf = _units(gx)
+                        frac = frac or gf
+                        g[k] = gu
+            except RuntimeError:
+                gerr = True
+        rec = {"i": i, "sch": sch, "pub": pub, "cost": cur_cost(mdl), "cls": cls, "v": v, "frac": frac,
+               "fcls": fcls, "fv": fv, "gerr": gerr}
+        if model is None:
+            rec["g"] = g            # real models: d value / d cost is not observable directly, value clauses only
+        ev.append(rec)
+
+    for i, a in enumerate(hist):
+        op, k, v = a["op"], a["k"], a["v"]
+        if op == "setS":
+            reg.strength = {"float": float(v * U), "int": int(v // 1024), "zero": 0.0}.get(k) if k != "tensor" else _f(torch, v * U)
+        elif op == "inplace":
+            tgt = reg.strength if k == "fill" else ctor_tensor
+            if not torch.is_tensor(tgt) or (k == "ext" and reg.strength is not ctor_tensor):
+                raise tlc.MachineryError("in-place strength update is not enabled in this state")
+            tgt.fill_(float(v * U))
+        elif op == "name":
+            reg.cost_name = k
+        elif op == "setT":
+            reg.targets = {n: torch.tensor(float(t)) for n, t in zip(NAMES, ATTR_T[v])}
+        elif op == "mutT":
+            reg.targets[k] = torch.tensor(float(v))
+        elif op == "fillT":
+            reg.targets[k].fill_(float(v))
+        elif op == "setF":
+            if k == "new":
+                reg.final_strengths = tuple(_f(torch, f * U) for f in ATTR_F[v])
+            else:
+                j = NAMES.index(k)
+                reg.final_strengths = tuple(_f(torch, v * U) if q == j else x for q, x in enumerate(reg.final_strengths))
+        elif op == "fillF":
+            reg.final_strengths[NAMES.index(k)].fill_(float(v * U))
+        elif op == "cost":
+            if model is None:
+                cost[:] = ATTR_COST[k]
+            else:
+                poke(k)
+        elif op == "apply":
+            apply(i, k)
+        else:
+            raise tlc.MachineryError(f"unknown attribute action {a}")
+    apply(len(hist), "dflt")
+    if not base:
+        apply(len(hist), "e1n4")
+    tr = {"k": "attr", "variant": variant, "hist": [dict(a) for a in hist], "ev": ev}
+    if model is not None:
+        tr["real"] = True
+    return tr
+
+
 def random_hist(rng, allow_f17=True):
     n = rng.randint(1, 50)
     k = rng.randint(1, 3)
@@ -336,6 +468,28 @@ def real_models(torch):
     return out
 
 
+def _mask_poker(torch, model):
+    """A function moving one channel mask of a real PIT model ("B": one channel pruned, "A": restored), or None."""
+    if not hasattr(model, "named_nas_parameters"):
+        return None
+    cand = [p for n, p in model.named_nas_parameters() if n.endswith("alpha") and p.dim() == 1 and p.numel() >= 3]
+    if not cand:
+        return None
+    p = cand[0]
+    orig = p.detach().clone()
+
+    def poke(k):
+        with torch.no_grad():
+            p.copy_(orig)
+            if k == "B":
+                p[0] = 0.0
+    c0 = float(model.get_cost("m0"))
+    poke("B")
+    c1 = float(model.get_cost("m0"))
+    poke("A")
+    return poke if c1 != c0 and c1 == int(c1) else None
+
+
 def run_real(torch, DUCCIO, BaseRegularizer, rng, n_hist):
     """Histories on real models: the costs are what the model reports (must be integers), the targets move."""
     traces, scen, skipped = [], [], 0
@@ -360,6 +514,20 @@ def run_real(torch, DUCCIO, BaseRegularizer, rng, n_hist):
             if costs[0] <= 40000:
                 traces.append(run_baseq(BaseRegularizer, form, kw, sM, sE, model, names[0], costs[0]))
                 scen.append({"kind": "baseq", "model": tag, "form": form, "c": costs[0], "nontrivial": True})
+        # BaseRegularizer attribute life cycle while the MASKS of the real model move between applications
+        poke = _mask_poker(torch, model)
+        if poke is not None and len(names) == 2 and costs[1] < 30000:
+            A_ = lambda op, k, v: {"op": op, "k": k, "v": v}
+            for variant in ("float", "tensor"):
+                h = [A_("apply", "dflt", 0), A_("cost", "B", 0), A_("apply", "dflt", 0), A_("setS", "float", 1024),
+                     A_("apply", "dflt", 0), A_("name", "m1", 0), A_("setS", "zero", 0), A_("apply", "dflt", 0),
+                     A_("cost", "A", 0), A_("setS", "tensor", 5), A_("inplace", "fill", 7), A_("apply", "dflt", 0),
+                     A_("cost", "B", 0)]
+                tr = run_attr(torch, DUCCIO, BaseRegularizer, variant, h, model=model, poke=poke)
+                poke("A")
+                traces.append(tr)
+                scen.append({"kind": "attr", "model": tag, "variant": variant, "hist": h, "nontrivial": True,
+                             "costs_seen": sorted({tuple(e["cost"]) for e in tr["ev"]})})
         # one object, (epoch, n_epochs) changing per call, next to fresh objects
         for mode in ("given", "derived"):
             k = min(len(names), 2)
@@ -422,6 +590,7 @@ def run(tier: str, seed: int, replay=None) -> int:
         "generic float32 strengths: 'reaches the final strength' and '1% at epoch 0' are decided with relative tolerance 2^-20 (exact rationals in the harness), the order clauses on IEEE bit patterns by TLC",
         "'hist' traces use one n_epochs per object (ascending or arbitrary epochs); 'life' traces vary epoch AND n_epochs per call, with strengths 10^4*m*2^-10 and n_epochs dividing 19800 (exact in float32)",
         "history independence is decided against FRESH real regularisers built with the same final strengths (for derived strengths: DUCCIO.final_strengths read once after the first call)",
+        "attribute life cycle: histories of at most 3 (thorough: 4) actions out of 13 per class on stub models (costs A/B), every application compared with the formula over the attributes READ BACK from the object at that moment and with a fresh object built from them; on real PIT models one fixed 13-action history with a channel mask moved between applications (BaseRegularizer only, value clauses only)",
         "BaseRegularizer with arbitrary decimal strengths: |value - strength*cost| <= 2e-2*10^sE + 1e-6*strength*cost (float32 round-off); default strength = the documented 1e-3",
         "strengths derived from task_loss are positive only for metrics above target at the first call; metrics below target then get strength 0 (outside 'positive final strengths': only finiteness, non-negativity and 'zero when within targets' are checked)",
         "real models: costs must be integer-valued (they are for params/ops/params_bit with hard selection); gradients on real models are only checked for finiteness",
@@ -438,6 +607,8 @@ def run(tier: str, seed: int, replay=None) -> int:
             tr = run_rampg(torch, DUCCIO, sc["n"], sc["s"])
         elif sc["kind"] == "hist":
             tr = run_hist(torch, DUCCIO, sc)
+        elif sc["kind"] == "attr" and "model" not in sc:
+            tr = run_attr(torch, DUCCIO, BaseRegularizer, sc["variant"], sc["hist"])
         elif sc["kind"] == "life" and "model" not in sc:
             tr = run_life(torch, DUCCIO, sc)
         else:
@@ -456,7 +627,29 @@ def run(tier: str, seed: int, replay=None) -> int:
     R.design("DuccioLife", "DuccioLife_cacheEpoch", workers=4, expect_ok=False)
     R.design("DuccioLife", "DuccioLife_cacheSched", workers=4, expect_ok=False)
 
+    # attribute life cycle of both classes: every history up to the bound; two wrong implementations must fail
+    adot = tempfile.mktemp(prefix="c19a-", suffix=".dot", dir=tlc.scratch())
+    ares = R.design("RegLife", "RegLife_thorough" if thorough else "RegLife_quick", workers=8, dump_dot=adot,
+                    coverage=True, require_cov=["RegLife!Do"], timeout=3000)
+    R.design("RegLife", "RegLife_captured", workers=4, expect_ok=False)
+    R.design("RegLife", "RegLife_lastcost", workers=4, expect_ok=False)
+
     traces, scen = [], []
+    # ---- 2a. spec -> code: every maximal attribute history on the real classes
+    anodes, aedges, _ = tlc.parse_dot(adot)
+    if len(anodes) != ares.distinct:
+        raise tlc.MachineryError(f"dump has {len(anodes)} states, TLC reported {ares.distinct}")
+    has_succ = {src for src, _, _ in aedges}
+    n_attr = 0
+    for nid, stt in anodes.items():
+        if nid in has_succ and len(stt["hist"]) < max(1, ares.depth - 1):
+            continue                                    # a proper prefix of a longer enumerated history
+        h = [{"op": a_["op"], "k": a_["k"], "v": a_["v"]} for a_ in stt["hist"]]
+        traces.append(run_attr(torch, DUCCIO, BaseRegularizer, stt["variant"], h))
+        scen.append({"kind": "attr", "variant": stt["variant"], "hist": h, "nontrivial": len(h) > 0})
+        n_attr += 1
+    R.extra["attribute_histories_replayed"] = n_attr
+    R.sample({"scenario": scen[-1], "observed": traces[-1]["ev"]})
     # ---- 2. spec -> code: the whole (n, e) grid of the design run
     for n in range(1, 51):
         for mult in (1, 2):
